@@ -14,7 +14,7 @@
 enum { ST_UNUSED = 0, ST_RUNNABLE, ST_BLOCKED, ST_IDLE, ST_DONE };
 typedef struct { long next, end, incr, chunk; int inited; } ws_t;
 typedef struct team { int n, active, master; ws_t ws[8]; } team_t;
-typedef struct lockrec { void* key; int held, owner; uint32_t vc[SCH_MAXT]; } lockrec;
+typedef struct lockrec { void* key; int held, owner, depth; uint32_t vc[SCH_MAXT]; } lockrec;
 typedef struct {
     int state; int wake; pthread_t th; int is_worker, master, slot;
     void (*fn)(void*); void* arg; team_t* team; int team_id; int ws_seq; ws_t* cur_ws; ws_t solo_ws;
@@ -237,6 +237,14 @@ static void lock_release(void* key) {
     if (!g_on) return; lockrec* l = lk_get(key); vc_join(l->vc, T[me].vc); T[me].vc[me]++; l->held = 0;
     for (int u = 0; u < NT; u++) if (T[u].state == ST_BLOCKED && T[u].wait_lock == l) T[u].state = ST_RUNNABLE;
 }
+/* the lock every stdio call takes on its stream (recursive, as flockfile is): the calls of the library on a shared FILE* are ordered by it, and a thread that holds it
+ * through flockfile() keeps every other thread's fseek / fread on that stream waiting */
+static void stream_lock(FILE* f, int with_sp) {
+    if (!g_on) return; lockrec* l = lk_get(f); if (l->held && l->owner == me) { l->depth++; return; } if (with_sp) sp(SCH_K_LOCK);
+    while (l->held) { T[me].state = ST_BLOCKED; T[me].wait_lock = l; sp(SCH_K_BLOCK); }
+    T[me].wait_lock = NULL; l->held = 1; l->owner = me; l->depth = 1; vc_join(T[me].vc, l->vc);
+}
+static void stream_unlock(FILE* f) { if (!g_on) return; lockrec* l = lk_get(f); if (!l->held || l->owner != me) return; if (--l->depth > 0) return; lock_release(f); }
 static int g_unnamed_lock, g_atomic_lock;
 void GOMP_critical_start(void) { lock_acquire(&g_unnamed_lock); }
 void GOMP_critical_end(void) { lock_release(&g_unnamed_lock); }
@@ -250,27 +258,27 @@ void omp_init_lock(void** l) { *l = NULL; } void omp_destroy_lock(void** l) { (v
 void omp_set_lock(void** l) { lock_acquire(l); } void omp_unset_lock(void** l) { lock_release(l); }
 
 /* ---- interposed library references (objcopy --redefine-syms=mc/sched.syms on the library objects) ------- */
-int mcs_fseek(FILE* f, long off, int wh) { if (g_on) { sp(SCH_K_IO); access_hook(f, 8, 1, PC()); } return fseek(f, off, wh); }
+int mcs_fseek(FILE* f, long off, int wh) { if (g_on) { sp(SCH_K_IO); stream_lock(f, 0); access_hook(f, 8, 1, PC()); } int r = fseek(f, off, wh); stream_unlock(f); return r; }
 /* stream state queries and the other positioning calls: steps on the shared FILE like fseek / fread */
-int mcs_feof(FILE* f) { if (g_on) { sp(SCH_K_IO); access_hook(f, 8, 0, PC()); } return feof(f); }
+int mcs_feof(FILE* f) { if (g_on) { sp(SCH_K_IO); stream_lock(f, 0); access_hook(f, 8, 0, PC()); } int r = feof(f); stream_unlock(f); return r; }
 int mcs_ferror(FILE* f) { if (g_on) { sp(SCH_K_IO); access_hook(f, 8, 0, PC()); } return ferror(f); }
 void mcs_clearerr(FILE* f) { if (g_on) { sp(SCH_K_IO); access_hook(f, 8, 1, PC()); } clearerr(f); }
 void mcs_rewind(FILE* f) { if (g_on) { sp(SCH_K_IO); access_hook(f, 8, 1, PC()); } rewind(f); }
-int mcs_fseeko(FILE* f, off_t off, int wh) { if (g_on) { sp(SCH_K_IO); access_hook(f, 8, 1, PC()); } return fseeko(f, off, wh); }
+int mcs_fseeko(FILE* f, off_t off, int wh) { if (g_on) { sp(SCH_K_IO); stream_lock(f, 0); access_hook(f, 8, 1, PC()); } int r = fseeko(f, off, wh); stream_unlock(f); return r; }
 off_t mcs_ftello(FILE* f) { if (g_on) { sp(SCH_K_IO); access_hook(f, 8, 0, PC()); } return ftello(f); }
 int mcs_fgetc(FILE* f) { if (g_on) { sp(SCH_K_IO); access_hook(f, 8, 1, PC()); } return fgetc(f); }
 int mcs_fgetpos(FILE* f, fpos_t* p) { if (g_on) { sp(SCH_K_IO); access_hook(f, 8, 0, PC()); } return fgetpos(f, p); }
 int mcs_fsetpos(FILE* f, const fpos_t* p) { if (g_on) { sp(SCH_K_IO); access_hook(f, 8, 1, PC()); } return fsetpos(f, p); }
-long mcs_ftell(FILE* f) { if (g_on) { sp(SCH_K_IO); access_hook(f, 8, 0, PC()); } return ftell(f); }
+long mcs_ftell(FILE* f) { if (g_on) { sp(SCH_K_IO); stream_lock(f, 0); access_hook(f, 8, 0, PC()); } long r = ftell(f); stream_unlock(f); return r; }
 size_t mcs_fread(void* p, size_t sz, size_t n, FILE* f) {
-    if (g_on) { sp(SCH_K_IO); access_hook(f, 8, 1, PC()); }
-    size_t r = fread(p, sz, n, f); if (g_on && r) access_hook(p, r * sz, 1, PC()); return r;
+    if (g_on) { sp(SCH_K_IO); stream_lock(f, 0); access_hook(f, 8, 1, PC()); }
+    size_t r = fread(p, sz, n, f); if (g_on && r) access_hook(p, r * sz, 1, PC()); stream_unlock(f); return r;
 }
 /* pthread mutexes / flockfile, in case a repair uses them */
 int mcs_pthread_mutex_lock(pthread_mutex_t* m) { if (!g_on) return pthread_mutex_lock(m); lock_acquire(m); return 0; }
 int mcs_pthread_mutex_unlock(pthread_mutex_t* m) { if (!g_on) return pthread_mutex_unlock(m); lock_release(m); return 0; }
-void mcs_flockfile(FILE* f) { if (!g_on) { flockfile(f); return; } lock_acquire(f); }
-void mcs_funlockfile(FILE* f) { if (!g_on) { funlockfile(f); return; } lock_release(f); }
+void mcs_flockfile(FILE* f) { if (!g_on) { flockfile(f); return; } stream_lock(f, 1); }
+void mcs_funlockfile(FILE* f) { if (!g_on) { funlockfile(f); return; } stream_unlock(f); }
 /* A ZSTD_DCtx must not be used by two threads at once.  The serialised scheduler executes each libzstd call as one step,
  * so overlapping use is detected with a begin / end pair around the real call. */
 /* zlib inflate: a step on the caller's z_stream (its own accesses to the stream state are not instrumented: report them as one write of the struct) */
